@@ -1068,3 +1068,45 @@ pub fn spec_selftest() {
 step!(t_mul_to0, Cfg { kind: 2, h: 2, d: 0, depth: [1, 0, 0, 2, 0, 0], ..CFG0 });
 // @h prop=C01 unwind=10 rec=2 cutfmt=1 uw=same_output.0:25;exit_model.0:25;exit.0:25;push.0:17;write.0:17 timeout=1200 what=흣_with_zero_dots:sum_goes_to_stack_0
 step!(t_neg_to0, Cfg { kind: 3, h: 1, d: 0, depth: [0, 0, 0, 1, 0, 0], ..CFG0 });
+
+// ---- pairwise grid over (kind, operands, target, area, selected stack): thorough tier, stretch ----
+// @h prop=C01 unwind=10 rec=2 cutfmt=1 uw=same_output.0:25;exit_model.0:25;exit.0:25;push.0:17;write.0:17 timeout=1800 tier=thorough kind=stretch what=pairwise_grid:흑_h=3_target=3_area=heart_selected=3
+step!(g_k5_h3_d3_a1_c3, Cfg { kind: 5, h: 3, d: 3, cur: 3, area: 1, npts: 1, dom: Dom::I8, depth: [0, 0, 0, 3, 0, 0], ..CFG0 });
+// @h prop=C01 unwind=10 rec=2 cutfmt=1 uw=same_output.0:25;exit_model.0:25;exit.0:25;push.0:17;write.0:17 timeout=1800 tier=thorough kind=stretch what=pairwise_grid:핫_h=1_target=4_area=none_selected=4
+step!(g_k2_h1_d4_a0_c4, Cfg { kind: 2, h: 1, d: 4, cur: 4, area: 0, npts: 0, dom: Dom::Frac, depth: [0, 0, 0, 0, 1, 0], ..CFG0 });
+// @h prop=C01 unwind=10 rec=3 cutfmt=1 uw=same_output.0:25;exit_model.0:25;exit.0:25;push.0:17;write.0:17 timeout=1800 tier=thorough kind=stretch what=pairwise_grid:흡_h=2_target=0_area=!_selected=3
+step!(g_k4_h2_d0_a4_c3, Cfg { kind: 4, h: 2, d: 0, cur: 3, area: 4, npts: 0, dom: Dom::Frac, depth: [0, 0, 0, 3, 0, 0], ..CFG0 });
+// @h prop=C01 unwind=10 rec=3 cutfmt=1 uw=same_output.0:25;exit_model.0:25;exit.0:25;push.0:17;write.0:17 timeout=1800 tier=thorough kind=stretch what=pairwise_grid:흣_h=2_target=3_area=?_selected=4
+step!(g_k3_h2_d3_a3_c4, Cfg { kind: 3, h: 2, d: 3, cur: 4, area: 3, npts: 0, dom: Dom::I8, depth: [0, 0, 0, 1, 3, 0], ..CFG0 });
+// @h prop=C01 unwind=10 rec=3 cutfmt=1 uw=same_output.0:25;exit_model.0:25;exit.0:25;push.0:17;write.0:17 timeout=1800 tier=thorough kind=stretch what=pairwise_grid:항_h=1_target=0_area=?_selected=3
+step!(g_k1_h1_d0_a3_c3, Cfg { kind: 1, h: 1, d: 0, cur: 3, area: 3, npts: 0, dom: Dom::I8, depth: [0, 0, 0, 2, 0, 0], ..CFG0 });
+// @h prop=C01 unwind=10 rec=3 cutfmt=1 uw=same_output.0:25;exit_model.0:25;exit.0:25;push.0:17;write.0:17 timeout=1800 tier=thorough kind=stretch what=pairwise_grid:항_h=3_target=4_area=!_selected=4
+step!(g_k1_h3_d4_a4_c4, Cfg { kind: 1, h: 3, d: 4, cur: 4, area: 4, npts: 0, dom: Dom::I8, depth: [0, 0, 0, 0, 3, 0], ..CFG0 });
+// @h prop=C01 unwind=10 rec=2 cutfmt=1 uw=same_output.0:25;exit_model.0:25;exit.0:25;push.0:17;write.0:17 timeout=1800 tier=thorough kind=stretch what=pairwise_grid:흣_h=3_target=0_area=none_selected=3
+step!(g_k3_h3_d0_a0_c3, Cfg { kind: 3, h: 3, d: 0, cur: 3, area: 0, npts: 0, dom: Dom::I8, depth: [0, 0, 0, 3, 0, 0], ..CFG0 });
+// @h prop=C01 unwind=10 rec=2 cutfmt=1 uw=same_output.0:25;exit_model.0:25;exit.0:25;push.0:17;write.0:17 timeout=1800 tier=thorough kind=stretch what=pairwise_grid:흡_h=1_target=4_area=heart_selected=4
+step!(g_k4_h1_d4_a1_c4, Cfg { kind: 4, h: 1, d: 4, cur: 4, area: 1, npts: 1, dom: Dom::Frac, depth: [0, 0, 0, 0, 1, 0], ..CFG0 });
+// @h prop=C01 unwind=10 rec=3 cutfmt=1 uw=same_output.0:25;exit_model.0:25;exit.0:25;push.0:17;write.0:17 timeout=1800 tier=thorough kind=stretch what=pairwise_grid:핫_h=1_target=3_area=!_selected=3
+step!(g_k2_h1_d3_a4_c3, Cfg { kind: 2, h: 1, d: 3, cur: 3, area: 4, npts: 0, dom: Dom::Frac, depth: [0, 0, 0, 2, 0, 0], ..CFG0 });
+// @h prop=C01 unwind=10 rec=2 cutfmt=1 uw=same_output.0:25;exit_model.0:25;exit.0:25;push.0:17;write.0:17 timeout=1800 tier=thorough kind=stretch what=pairwise_grid:흑_h=2_target=4_area=none_selected=4
+step!(g_k5_h2_d4_a0_c4, Cfg { kind: 5, h: 2, d: 4, cur: 4, area: 0, npts: 0, dom: Dom::I8, depth: [0, 0, 0, 0, 2, 0], ..CFG0 });
+// @h prop=C01 unwind=10 rec=2 cutfmt=1 uw=same_output.0:25;exit_model.0:25;exit.0:25;push.0:17;write.0:17 timeout=1800 tier=thorough kind=stretch what=pairwise_grid:핫_h=2_target=0_area=heart_selected=4
+step!(g_k2_h2_d0_a1_c4, Cfg { kind: 2, h: 2, d: 0, cur: 4, area: 1, npts: 1, dom: Dom::Frac, depth: [0, 0, 0, 0, 2, 0], ..CFG0 });
+// @h prop=C01 unwind=10 rec=3 cutfmt=1 uw=same_output.0:25;exit_model.0:25;exit.0:25;push.0:17;write.0:17 timeout=1800 tier=thorough kind=stretch what=pairwise_grid:흡_h=3_target=4_area=?_selected=3
+step!(g_k4_h3_d4_a3_c3, Cfg { kind: 4, h: 3, d: 4, cur: 3, area: 3, npts: 0, dom: Dom::Frac, depth: [0, 0, 0, 3, 1, 0], ..CFG0 });
+// @h prop=C01 unwind=10 rec=2 cutfmt=1 uw=same_output.0:25;exit_model.0:25;exit.0:25;push.0:17;write.0:17 timeout=1800 tier=thorough kind=stretch what=pairwise_grid:항_h=2_target=3_area=none_selected=4
+step!(g_k1_h2_d3_a0_c4, Cfg { kind: 1, h: 2, d: 3, cur: 4, area: 0, npts: 0, dom: Dom::I8, depth: [0, 0, 0, 1, 2, 0], ..CFG0 });
+// @h prop=C01 unwind=10 rec=3 cutfmt=1 uw=same_output.0:25;exit_model.0:25;exit.0:25;push.0:17;write.0:17 timeout=1800 tier=thorough kind=stretch what=pairwise_grid:흣_h=1_target=4_area=!_selected=3
+step!(g_k3_h1_d4_a4_c3, Cfg { kind: 3, h: 1, d: 4, cur: 3, area: 4, npts: 0, dom: Dom::I8, depth: [0, 0, 0, 2, 1, 0], ..CFG0 });
+// @h prop=C01 unwind=10 rec=3 cutfmt=1 uw=same_output.0:25;exit_model.0:25;exit.0:25;push.0:17;write.0:17 timeout=1800 tier=thorough kind=stretch what=pairwise_grid:흑_h=1_target=0_area=?_selected=4
+step!(g_k5_h1_d0_a3_c4, Cfg { kind: 5, h: 1, d: 0, cur: 4, area: 3, npts: 0, dom: Dom::I8, depth: [0, 0, 0, 0, 2, 0], ..CFG0 });
+// @h prop=C01 unwind=10 rec=3 cutfmt=1 uw=same_output.0:25;exit_model.0:25;exit.0:25;push.0:17;write.0:17 timeout=1800 tier=thorough kind=stretch what=pairwise_grid:핫_h=3_target=0_area=?_selected=4
+step!(g_k2_h3_d0_a3_c4, Cfg { kind: 2, h: 3, d: 0, cur: 4, area: 3, npts: 0, dom: Dom::Frac, depth: [0, 0, 0, 0, 3, 0], ..CFG0 });
+// @h prop=C01 unwind=10 rec=2 cutfmt=1 uw=same_output.0:25;exit_model.0:25;exit.0:25;push.0:17;write.0:17 timeout=1800 tier=thorough kind=stretch what=pairwise_grid:흡_h=1_target=3_area=none_selected=4
+step!(g_k4_h1_d3_a0_c4, Cfg { kind: 4, h: 1, d: 3, cur: 4, area: 0, npts: 0, dom: Dom::Frac, depth: [0, 0, 0, 1, 1, 0], ..CFG0 });
+// @h prop=C01 unwind=10 rec=3 cutfmt=1 uw=same_output.0:25;exit_model.0:25;exit.0:25;push.0:17;write.0:17 timeout=1800 tier=thorough kind=stretch what=pairwise_grid:흑_h=1_target=3_area=!_selected=3
+step!(g_k5_h1_d3_a4_c3, Cfg { kind: 5, h: 1, d: 3, cur: 3, area: 4, npts: 0, dom: Dom::I8, depth: [0, 0, 0, 2, 0, 0], ..CFG0 });
+// @h prop=C01 unwind=10 rec=2 cutfmt=1 uw=same_output.0:25;exit_model.0:25;exit.0:25;push.0:17;write.0:17 timeout=1800 tier=thorough kind=stretch what=pairwise_grid:항_h=2_target=3_area=heart_selected=3
+step!(g_k1_h2_d3_a1_c3, Cfg { kind: 1, h: 2, d: 3, cur: 3, area: 1, npts: 1, dom: Dom::I8, depth: [0, 0, 0, 2, 0, 0], ..CFG0 });
+// @h prop=C01 unwind=10 rec=2 cutfmt=1 uw=same_output.0:25;exit_model.0:25;exit.0:25;push.0:17;write.0:17 timeout=1800 tier=thorough kind=stretch what=pairwise_grid:흣_h=3_target=0_area=heart_selected=4
+step!(g_k3_h3_d0_a1_c4, Cfg { kind: 3, h: 3, d: 0, cur: 4, area: 1, npts: 1, dom: Dom::I8, depth: [0, 0, 0, 0, 3, 0], ..CFG0 });
